@@ -220,13 +220,24 @@ def run(ctx):
                     missing = want - fields
                     if vp == ('Compound', 'Compound'):
                         # kind, spec identity and binding
-                        bodys = flat_src(a['body'])
+                        # on the MIR of the equality: which payloads are compared, by the type of the compared operands.  The
+                        # declaration itself (the spec) must be compared, as bind_in_assignment does: two declarations of the same
+                        # name -- a local struct shadowing an outer one -- are different types
                         missing = set()
-                        if 'k0==k1' not in bodys:
+                        eqb = [x for x in ctx.mir.bodies if x.nid == '<xtype::XType as std::cmp::PartialEq>::eq']
+                        compared = set()
+                        for x in eqb:
+                            for cbb, ct in x.calls():
+                                cn = ct.get('callee') or ct.get('decl') or ''
+                                if 'PartialEq' in cn and cn.endswith(('::eq', '::ne')):
+                                    for ty in ct.get('argtys') or []:
+                                        base = ty.replace('&', '').strip()
+                                        compared.add(base)
+                        if not any(c.startswith('xtype::CompoundKind') for c in compared):
                             missing.add('kind')
-                        if 'a.name==b.name' not in bodys and 'a==b' not in bodys:
-                            missing.add('name')
-                        if 'a_b==b_b' not in bodys:
+                        if not any(c.startswith('std::sync::Arc<xtype::XCompoundSpec>') or c.startswith('xtype::XCompoundSpec') for c in compared):
+                            missing.add('declaration')
+                        if not any(c.startswith('xtype::Bind') for c in compared):
                             missing.add('bind')
                     r3.inst({'arm': vp, 'fields_read': sorted(fields)[:8], 'missing': sorted(missing)}, ok=not missing, kind=vp)
                     if missing:
@@ -566,6 +577,9 @@ def generic_match_recorded(ctx, r8):
                 ds = [absint.deref(None, env, absint.deref(None, env, absint.deref(None, env, v))) for v in vals]
                 if len(ds) == 2 and all(d in ('N', 'M') for d in ds):
                     return (ds[0] == ds[1]) == nm.endswith('eq')
+                # equality of the two abstract types themselves (an `identical types` fast path): decided on the abstract values
+                if len(ds) == 2 and all(isinstance(d, tuple) and d and d[0] == 'enum' for d in ds):
+                    return (ds[0][2] == ds[1][2] and ds[0][3] == ds[1][3]) == nm.endswith('eq')
                 return absint.UNKNOWN
             if nm == 'xtype::Bind::new':
                 return ('adt', 'Bind', 'empty')
